@@ -518,3 +518,70 @@ def premise_min_year_length(P):
     is what the abstract calendar assumes, and it is at least the 300-day fast-path threshold documented in the code."""
     worst = min_year_length()
     return worst[0] >= 300, f"shortest year: {worst[0]} days ({worst[1]} {worst[2]})"
+
+
+# ---------------------------------------------------------------------------------------------------------------- Hebrew: changing the year
+def _heb_leap(y):
+    p = y % 19
+    r = False
+    for q in (0, 3, 6, 8, 11, 14, 17):
+        r = r or p == q
+    return r
+
+
+@lemma({"y1": int, "y2": int, "sm": int, "d": int, "L2": int}, params=[[c, m] for c in ("Hebrew Civil", "Hebrew Scriptural") for m in range(1, 14)],
+       budget=200, per_path=40,
+       bounds="the Hebrew calculators' _set_year (what plus_years and the year part of Period arithmetic use) for EVERY source year, target "
+              "year, source month and day 1..30, the target year's Heshvan/Kislev lengths abstract (any legal year length): the documented rule - "
+              "the month is kept, Adar II of a leap year goes to Adar in a common year, Adar of a COMMON year goes to Adar II in a leap year "
+              "(Adar I of a leap year stays Adar I), and day 30 of a month that has only 29 days in the target year rolls to the 1st of the next month")
+def hebrew_set_year(PM):
+    P, month = PM
+    from pyoda_time import CalendarSystem
+    from pyoda_time.calendars._hebrew_scriptural_calculator import _HebrewScripturalCalculator as HS
+    from props import ymdrecord
+    ymdrecord.install()
+    calc = CalendarSystem.for_id(P)._year_month_day_calculator
+    civil = P.endswith("Civil")
+    order = (7, 8, 9, 10, 11, 12, 13, 1, 2, 3, 4, 5, 6)
+
+    def to_cal(sm, leap):
+        if not civil:
+            return sm
+        months = [m for m in order if m != 13 or leap]
+        return months.index(sm) + 1
+
+    def h(y1, y2, sm, d, L2):
+        assume(1 <= y1 <= 9998)
+        assume(1 <= y2 <= 9998)
+        leap1, leap2 = bool(_heb_leap(y1)), bool(_heb_leap(y2))
+        assume(sm == month)                 # one instance per source month (scriptural numbering)
+        assume(1 <= sm <= (13 if leap1 else 12))
+        sm = month
+        assume(1 <= d <= 30)
+        legal = (383, 384, 385) if leap2 else (353, 354, 355)
+        assume(L2 == legal[0] or L2 == legal[1] or L2 == legal[2])
+        entry = 4 * 1000 + (1 if L2 % 10 == 5 else 0) + (2 if L2 % 10 == 3 else 0)
+
+        def cache(cls, year):
+            if year == y2:
+                return entry
+            raise AssertionError("abstract year cache asked for an unexpected year")
+        saved = HS._HebrewScripturalCalculator__get_or_populate_cache
+        HS._HebrewScripturalCalculator__get_or_populate_cache = classmethod(cache)
+        try:
+            r = calc._set_year(ymdrecord.YMD(y1, to_cal(sm, leap1), d), y2)
+        finally:
+            HS._HebrewScripturalCalculator__get_or_populate_cache = saved
+        tm = sm
+        if sm == 13 and not leap2:
+            tm = 12
+        elif sm == 12 and leap2 and not leap1:
+            tm = 13
+        td = d
+        if d == 30:
+            short = (tm == 8 and L2 % 10 != 5) or (tm == 9 and L2 % 10 == 3) or (tm == 12 and not leap2)
+            if short:
+                td, tm = 1, (1 if tm == 12 else tm + 1)
+        return r._year == y2 and r._month == to_cal(tm, leap2) and r._day == td
+    return h
